@@ -197,11 +197,14 @@ func DrawEnv(t *rapid.T, opt EnvOpt) *Env {
 	}
 	if opt.UserMethods {
 		for _, d := range e.Structs {
-			switch rapid.IntRange(0, 3).Draw(t, "usermeth") {
+			switch rapid.IntRange(0, 4).Draw(t, "usermeth") {
 			case 0:
 				d.UserEqual = "ptr"
 			case 1:
 				d.UserEqual = "val"
+			case 2:
+				// the idiom of the Readme: the method is implemented by the derived function itself
+				d.UserEqual = "derive"
 			}
 		}
 	}
